@@ -47,11 +47,14 @@ def observe(h, plus=False, renumber=True):
         rec["out"], rec["in"] = po, pi
         if plus:
             rec["num_out_ports"] = nout
+            rec["num_in_ports"] = nin
             rec["idx"] = old
         out["nodes"].append(rec)
     for s, t in h.links():
         links[(ren[s.node.idx], s.offset, ren[t.node.idx], t.offset)] += 1
     out["links"] = sorted([*k, c] for k, c in links.items())
+    if plus:
+        out["root"] = h.root.idx
     return out
 
 
